@@ -382,6 +382,10 @@ func (tbls *TBLS) commitPhase(ctx context.Context, pk []byte) {
 }
 
 func (tbls *TBLS) combineShares() []byte {
+	// OnMsg may run concurrently (a peer may reveal its public key early) and writes the same maps
+	tbls.lock.Lock()
+	defer tbls.lock.Unlock()
+
 	for _, party := range tbls.parties {
 		if party == tbls.Party {
 			continue
